@@ -46,7 +46,14 @@ type Subtypep struct {
 func (f *Subtypep) Call(s *slip.Scope, args slip.List, depth int) slip.Object {
 	slip.CheckArgCount(s, depth, f, args, 2, 2)
 	result := slip.Values{nil, slip.True}
-
+	if args[1] == slip.True {
+		// Every type is a subtype of t.
+		result[0] = slip.True
+		return result
+	}
+	if args[0] == slip.True {
+		return result
+	}
 	pt1, et1 := designatedType(s, args[0], "type-1", depth)
 	pt2, et2 := designatedType(s, args[1], "type-2", depth)
 
